@@ -243,10 +243,22 @@ def generated_reset_observations(tier):
         sc.name = "verif"
         dims = tuple(int(x) for x in sc.get_observation_dims())
         for fo, f1 in ((False, True), (True, False)):
-            env = NASimEnv(sc, fully_obs=fo, flat_actions=True, flat_obs=f1)
-            o, _ = env.reset()
-            sm.arm(1e-9)
-            o2, *_ = env.step(0)
+            try:
+                env = NASimEnv(sc, fully_obs=fo, flat_actions=True, flat_obs=f1)
+                o, _ = env.reset()
+                sm.arm(1e-9)
+                o2, *_ = env.step(0)
+            except HarnessError:
+                raise
+            except Exception as e:
+                # environments are built one after the other in this process; building, resetting or stepping one for a
+                # valid generated scenario must not fail because of the ones built before
+                import traceback
+                viol.append({"property": "C10", "kind": "exception_while_exploring:" + type(e).__name__,
+                             "engine": "generated", "params": {k: v for k, v in p.items()},
+                             "detail": {"fully_obs": fo, "flat_obs": f1, "problem": "exception " + str(e)[:120],
+                                        "trace": traceback.format_exc()[-600:]}})
+                break
             n += 2
             want = dims if not f1 else (dims[0] * dims[1],)
             for what, ob in (("reset", o), ("step", o2)):
@@ -262,6 +274,43 @@ def generated_reset_observations(tier):
                                  "engine": "generated", "params": {k: v for k, v in p.items()},
                                  "detail": {"fully_obs": fo, "flat_obs": f1, "problem": prob}})
                     break
+    # two LIVE environments with one vector layout (common address_space_bounds - what that parameter is for) but a
+    # different number of hosts, stepped in turn with failing and succeeding draws: each one's observations must stay
+    # members of ITS OWN space
+    for fo in (False, True):
+        for na, nb in ((6, 9), (9, 5)):
+            pa = {"num_hosts": na, "num_services": 3, "address_space_bounds": (5, 6), "seed": 1}
+            pb = {"num_hosts": nb, "num_services": 3, "address_space_bounds": (5, 6), "seed": 2}
+            try:
+                sa, sb = nasim.generate_scenario(**pa), nasim.generate_scenario(**pb)
+                if (list(sa.os), list(sa.services), list(sa.processes)) != (list(sb.os), list(sb.services), list(sb.processes)):
+                    continue
+                ea = NASimEnv(sa, fully_obs=fo, flat_actions=True, flat_obs=True)
+                eb = NASimEnv(sb, fully_obs=fo, flat_actions=True, flat_obs=True)
+                ea.reset(); eb.reset()
+                for side in (1.0 - 1e-9, 1e-9):
+                    for i in range(min(int(ea.action_space.n), int(eb.action_space.n), 60)):
+                        for who, env, p in (("A", ea, pa), ("B", eb, pb)):
+                            sm.arm(side)
+                            ob, *_ = env.step(i)
+                            n += 1
+                            want = tuple(env.observation_space.shape)
+                            dims = tuple(int(x) for x in env.scenario.get_observation_dims())
+                            if tuple(np.asarray(ob).shape) != want or want != (dims[0] * dims[1],) \
+                                    or not env.observation_space.contains(ob):
+                                viol.append({"property": "C10", "kind": "observation_violates_space:two_live_environments",
+                                             "engine": "generated_pair", "params": p, "pair": [pa, pb],
+                                             "detail": {"fully_obs": fo, "flat_obs": True, "victim": who, "action": i,
+                                                        "problem": f"shape {np.asarray(ob).shape} vs space {want}"}})
+                                raise StopIteration
+            except StopIteration:
+                pass
+            except HarnessError:
+                raise
+            except Exception as e:
+                viol.append({"property": "C10", "kind": "exception_while_exploring:" + type(e).__name__,
+                             "engine": "generated_pair", "params": pa, "pair": [pa, pb],
+                             "detail": {"fully_obs": fo, "flat_obs": True, "problem": "exception " + str(e)[:120]}})
     seen, uniq = set(), []
     for v in viol:
         k = (v["kind"], v["detail"]["problem"][:20])
@@ -305,17 +354,27 @@ def run(pid, tier):
 
 
 def replay(pid, rec):
+    if rec.get("engine") == "generated_pair":
+        v, _ = generated_reset_observations("quick")
+        return [x for x in v if x.get("engine") == "generated_pair"]
     if rec.get("engine") == "generated":
         nasim = import_nasim()
         from nasim.envs import NASimEnv
         sc = nasim.generate_scenario(**rec["params"])
         dims = tuple(int(x) for x in sc.get_observation_dims())
         d = rec["detail"]
-        env = NASimEnv(sc, fully_obs=d["fully_obs"], flat_actions=True, flat_obs=d["flat_obs"])
-        o, _ = env.reset()
-        want = dims if not d["flat_obs"] else (dims[0] * dims[1],)
-        bad = tuple(np.asarray(o).shape) != want or not env.observation_space.contains(o)
-        return [{"kind": rec["kind"], "detail": {"shape": list(np.asarray(o).shape), "advertised": list(want)}}] if bad else []
+        try:
+            env = NASimEnv(sc, fully_obs=d["fully_obs"], flat_actions=True, flat_obs=d["flat_obs"])
+            o, _ = env.reset()
+            want = dims if not d["flat_obs"] else (dims[0] * dims[1],)
+            bad = tuple(np.asarray(o).shape) != want or not env.observation_space.contains(o)
+        except Exception as e:
+            return [{"kind": rec["kind"], "detail": {"exception": type(e).__name__}}]
+        if bad:
+            return [{"kind": rec["kind"], "detail": {"shape": list(np.asarray(o).shape), "advertised": list(want)}}]
+        # not reproduced by this environment alone: it may need the environments built before it in the same process
+        v, _ = generated_reset_observations("quick")
+        return [x for x in v if x["params"] == rec["params"] or x["kind"] == rec["kind"]]
     from .sweep import make_ctx
     from .explore import explore
     from .spec import spec_from_json
